@@ -59,6 +59,14 @@ def cexpr(n, env):
     return ('Const', repr(n.value))
   if isinstance(n, ast.UnaryOp) and isinstance(n.op, ast.USub) and isinstance(n.operand, ast.Constant):
     return ('Const', repr(-n.operand.value))
+  # old if old == 'deprecated' else 'deprecated': the sentinel kept as the object given
+  if isinstance(n, ast.IfExp) and isinstance(n.test, ast.Compare) and len(n.test.ops) == 1 \
+      and isinstance(n.test.ops[0], ast.Eq) and isinstance(n.test.left, ast.Name) \
+      and isinstance(n.test.comparators[0], ast.Constant) and n.test.comparators[0].value == 'deprecated' \
+      and isinstance(n.body, ast.Name) and n.body.id == n.test.left.id \
+      and isinstance(n.orelse, ast.Constant) and n.orelse.value == 'deprecated' \
+      and env.get(n.body.id) == ('Param', n.body.id):
+    return ('Sentinel', n.body.id)
   raise Untranslatable(n, "constructor stores a computed value")
 
 
@@ -179,6 +187,8 @@ def gexpr(e):
     return '(Const "%s")' % e[1].replace('"', "'")
   if e[0] == 'Alias':
     return '(Alias "%s" %s)' % (e[1], gexpr(e[2]))
+  if e[0] == 'Sentinel':
+    return '(Sentinel "%s")' % e[1]
   raise ValueError(e)
 
 
